@@ -1,6 +1,10 @@
 //! Shared pieces of the verification harness: instrumented component and
 //! resource types with a process-global ledger.
 pub mod ledger;
+pub mod alloc_audit;
+
+#[global_allocator]
+static GLOBAL: alloc_audit::Audit = alloc_audit::Audit;
 pub mod comps;
 
 use brood::entity;
